@@ -14,6 +14,14 @@ class Replay:
         self.dir = overlay.new_scratch("replay-" + tag)
         self.src = os.path.join(self.dir, "replay")
         shutil.copytree(os.path.join(VERIF, "replay"), self.src)
+        repo = os.environ.get("VERIF_REPO", "/repo").rstrip("/")
+        if repo != "/repo":
+            # checks can be pointed at another checkout (seed testing in a scratch worktree)
+            ct = os.path.join(self.src, "Cargo.toml")
+            with open(ct) as f:
+                txt = f.read()
+            with open(ct, "w") as f:
+                f.write(txt.replace('path = "/repo/', 'path = "%s/' % repo))
         self.target = os.path.join(self.dir, "target")
         self.bins = {}
         self.build_log = ""
